@@ -142,6 +142,50 @@ Proof.
     rewrite ?app_length, ?app_nth1 by auto; split; auto; lia.
 Qed.
 
+(* uv_walk + close-all: whatever do_close and set_ut keep, the walk keeps *)
+Lemma len_hs_do_stop s h : length (hs (do_stop s h)) = length (hs s).
+Proof.
+  unfold do_stop. destruct (negb (h_active (geth s h))); auto.
+  rewrite len_hs_upd_h. destruct (h_chain (geth s h)); auto.
+  destruct (timer_active _); reflexivity.
+Qed.
+
+Lemma len_hs_do_close s h : length (hs (do_close s h)) = length (hs s).
+Proof.
+  unfold do_close. set (s1 := do_stop _ h).
+  assert (E : length (hs s1) = length (hs s)) by (unfold s1; rewrite len_hs_do_stop; apply len_hs_upd_h).
+  destruct (h_chain (geth s1 h)); exact E.
+Qed.
+
+Lemma walk_targets_lt s h : In h (walk_targets s) -> (h < length (hs s))%nat.
+Proof.
+  unfold walk_targets, uv_walk, handle_queue. intros I. apply in_flat_map in I.
+  destruct I as (it & I1 & I2). apply filter_In in I1. destruct I1 as [I1 N].
+  apply in_app_iff in I1. destruct I1 as [I1|I1].
+  - apply in_map_iff in I1. destruct I1 as (h0 & <- & I1). cbn in I2. destruct I2 as [<-|[]].
+    apply filter_In in I1. destruct I1 as [I1 _]. apply in_seq in I1. lia.
+  - apply in_map_iff in I1. destruct I1 as (c & <- & _). cbn in N. discriminate.
+Qed.
+
+Lemma do_walk_inv (P : st -> Prop) :
+  (forall s h, (h < length (hs s))%nat -> P s -> P (do_close s h)) ->
+  (forall s l, P s -> P (set_ut s l)) ->
+  forall s, P s -> P (do_walk s).
+Proof.
+  intros Pc Pu s H. unfold do_walk.
+  assert (X : forall l s0, Forall (fun h => (h < length (hs s0))%nat) l -> P s0 ->
+              P (fold_left (fun s h => if h_closing (geth s h) then s else do_close s h) l s0)).
+  { induction l as [|h l IH]; intros s0 F H0; cbn [fold_left]; auto.
+    inversion F as [|a b Fh Fl]; subst.
+    destruct (h_closing (geth s0 h)); [apply IH; auto|].
+    apply IH; [|apply Pc; auto].
+    rewrite len_hs_do_close. exact Fl. }
+  set (s1 := fold_left _ (walk_targets s) s).
+  assert (H1 : P s1).
+  { apply X; auto. apply Forall_forall. intros h I. apply walk_targets_lt; auto. }
+  destruct (ut s1); auto.
+Qed.
+
 Lemma api_core s o c' :
   (c' < length (cs s))%nat ->
   core (getc (fst (api s o)) c') = core (getc s c') /\
@@ -156,6 +200,11 @@ Proof.
     rewrite do_stop_core, do_stop_len. auto.
   - destruct (valid s h && negb (h_closing (geth s h))); cbn [fst snd]; [|split; [|split]; auto].
     rewrite do_close_core, do_close_len. auto.
+  - cbn [fst snd].
+    pose proof (do_walk_inv (fun s' => core (getc s' c') = core (getc s c') /\ length (cs s') = length (cs s))) as W.
+    destruct (W) with (s := s) as [A B]; auto.
+    + intros s0 h _ [A B]. rewrite do_close_core, do_close_len. auto.
+    + rewrite A, B. auto.
 Qed.
 
 Lemma apis_core os : forall s c',
